@@ -375,6 +375,19 @@ fn coarse(args: &[String]) {
             done[k] = true;
         }
         check(sig, &done, &mut log, &mut violation, ev);
+        // "After the process receives an interrupt, the server stops accepting connections": once the interrupt has been handled
+        // (the settling above gave the accept loop its time), a new client must be turned away - not parked in a backlog nobody
+        // will ever serve - whether or not sessions are still in flight.
+        if sig && violation.is_none() {
+            match std::net::TcpStream::connect_timeout(&std::net::SocketAddr::from(([127, 0, 0, 1], port)), Duration::from_millis(500)) {
+                Err(e) => log.push(format!("after {ev}: new connection refused ({})", e.kind())),
+                Ok(c) => {
+                    // connected: is it served at least?  (a server that still serves it has not stopped accepting either)
+                    drop(c);
+                    violation = Some(format!("accepts-after-interrupt after {ev}: a new connection was established although the interrupt had been handled (done={done:?})"));
+                }
+            }
+        }
         if returned.load(Ordering::SeqCst) && !(sig && done.iter().all(|d| *d)) { break }
     }
     println!("{}", serde_json::json!({"mode": "coarse", "mix": mix.iter().collect::<String>(), "events": events, "log": log, "violation": violation,
